@@ -373,12 +373,22 @@ def _trace_json(rec, convs, alone):
     return {"convs": cv, "ev": rec.ev}
 
 
-def _differs(trace):
-    for cv in trace["convs"]:
-        for d in cv["turns"]:
-            if d["r"] != d["alone"]["r"] or d["calls"] != d["alone"]["calls"]:
-                return True
-    return any(e["k"] == "Idle" and e["x"] != _milli(CONFIGURED) for e in trace["ev"])
+def _pack(tr):
+    js = json.dumps(tr, sort_keys=True, separators=(",", ":"))
+    return hashlib.sha1(js.encode()).hexdigest()[:20], js
+
+
+def _summary(tr, ex, alone):
+    """small per-execution facts the parent needs without parsing the trace again"""
+    ov, df = _overlap_info(tr)
+    eok = True
+    for cv, al in zip(tr["convs"], alone):
+        for n, d in enumerate(cv["turns"]):
+            if n < len(al) and d["secs"] != al[n]["secs"]:
+                eok = False
+    return {"ov": ov, "df": df, "eok": eok,
+            "hit": any(d["hp"] > 0 for cv in tr["convs"] for d in cv["turns"]),
+            "cls": _steps_class(tr) if ex.get("fam") == "conc2" else None}
 
 
 _W = {}
@@ -397,21 +407,23 @@ def _wjob(job):
         if kind == "confirm":
             # brand-new shared instance per execution
             execs, table = payload
-            return kind, [{"id": ex["id"], "trace": _trace_json(_execute(Instance(), ex), ex["convs"],
-                                                                 [table[_conv_key(cs)] for cs in ex["convs"]])}
+            return kind, [{"id": ex["id"], "js": _pack(_trace_json(_execute(Instance(), ex), ex["convs"],
+                                                                    [table[_conv_key(cs)] for cs in ex["convs"]]))[1]}
                           for ex in execs], None
         execs, table = payload
-        out = []
+        out, new = [], {}
         if "inst" not in _W:
             _winit()
+        inst = _W["inst"]
         for ex in execs:
             alone = [table[_conv_key(cs)] for cs in ex["convs"]]
-            inst = _W["inst"]
             inst.reset()
             rec = _execute(inst, ex)
             tr = _trace_json(rec, ex["convs"], alone)
-            out.append({"id": ex["id"], "trace": tr})
-        return kind, out, None
+            h, js = _pack(tr)
+            new.setdefault(h, js)
+            out.append({"id": ex["id"], "h": h, "sum": _summary(tr, ex, alone)})
+        return kind, (out, new), None
     except Exception:
         import traceback
         return kind, None, traceback.format_exc()
@@ -450,7 +462,7 @@ def conc_grid(quick):
     offs = (0, 1, 2, 4, 40) if quick else (0, 1, 2, 3, 5, 40)
     phases = (0, 1, 9, 10, 19) if quick else (0, 1, 5, 9, 10, 15, 19, 20)
     kinds2 = [("b", "b"), ("b", ":")]
-    temps2 = TEMP_PAIRS if quick else [(x, y) for x in (None, 0.2, 0.9) for y in (None, 0.2, 0.9)]
+    temps2 = TEMP_PAIRS
     for ka, kb in kinds2:
         for la in itertools.product(lats, repeat=NCALLS[ka]):
             for lb in itertools.product(lats, repeat=NCALLS[kb]):
@@ -462,7 +474,7 @@ def conc_grid(quick):
     for la, lb in itertools.product((1, 2, 3), repeat=2):
         for tp in TEMP_PAIRS:
             for off in (0, 1, 2, 5):
-                for ph in (0, 7):
+                for ph in (0, 9):
                     add([["b", ":"], [":", "b"]], tp, (0, off), (0, ph), ([la], [lb]), "conc2t")
     if not quick:
         vec = {"b": [(1, 1), (1, 3), (3, 1), (2, 4)], ":": [(1, 1, 1), (1, 3, 1), (3, 1, 2), (2, 2, 4)]}
@@ -470,9 +482,9 @@ def conc_grid(quick):
         for ks in [("b", "b", "b"), ("b", "b", ":"), ("b", ":", ":"), (":", ":", ":")]:
             for ls in itertools.product(*[vec[k] for k in ks]):
                 for tp in temps3:
-                    for ob in (0, 1, 2, 40):
-                        for oc in (0, 1, 2, 40):
-                            for ph in ((0, 0), (7, 0), (0, 7), (3, 11)):
+                    for ob in (0, 1, 40):
+                        for oc in (0, 2, 40):
+                            for ph in ((0, 0), (9, 1), (1, 10)):
                                 add([[k] for k in ks], tp, (0, ob, oc), (0,) + ph, ls, "conc3")
     return out
 
@@ -491,24 +503,21 @@ def _sections(trace):
 
 
 def _overlap_info(trace):
+    """(overlap, differ): some conversation does a step of an LLMParams section (Enter / Call / Exit,
+    also of a section that sets nothing) while a section of ANOTHER conversation that changed the
+    shared attribute is open; differ: that open section saved or set a non-configured value."""
+    cfgv = _milli(CONFIGURED)
     secs = [s for s in _sections(trace) if s[3] != -1]
     overlap = differ = False
-    for a, b in itertools.combinations(secs, 2):
-        if a[0] != b[0] and a[1] < b[2] and b[1] < a[2]:
-            overlap = True
-            if len({a[3], a[4], b[3], b[4]}) > 1:
-                differ = True
+    for idx, e in enumerate(trace["ev"]):
+        if e["k"] not in ("Enter", "Call", "Exit"):
+            continue
+        for s in secs:
+            if s[0] != e["c"] and s[1] < idx < s[2]:
+                overlap = True
+                if s[3] != cfgv or s[4] != cfgv:
+                    differ = True
     return overlap, differ
-
-
-def _enter_ok(trace):
-    """every LLMParams section of every turn was entered with the kwargs the alone run used"""
-    for cv in trace["convs"]:
-        for d in cv["turns"]:
-            a = d.get("alone_secs")
-            if a is not None and d["secs"] != a:
-                return False
-    return True
 
 
 def _plain(msgs):
@@ -542,15 +551,15 @@ def _collision(trace, c, n):
     return False, None
 
 
-def _sig(trace, ex, c, n, kind, accepted, foreign):
-    overlap, differ = _overlap_info(trace)
+def _sig(trace, ex, c, n, kind, accepted, foreign, sm):
+    overlap, differ, eok = sm["ov"], sm["df"], sm["eok"]
     sig = {"mode": ex["mode"], "nconv": len(ex["convs"]), "conforms_to_spec": bool(accepted)}
     detail = None
     if kind in ("param-at-call", "param-at-rest"):
-        if overlap and differ and _enter_ok(trace) and accepted:
+        if overlap and differ and eok and accepted:
             sig.update({"class": "llmparams-overlap", "params_differ": True, "enter_set_intended": True})
         else:
-            sig.update({"class": "other", "overlap": overlap, "params_differ": differ, "enter_set_intended": _enter_ok(trace)})
+            sig.update({"class": "other", "overlap": overlap, "params_differ": differ, "enter_set_intended": eok})
     else:
         coll, detail = _collision(trace, c, n) if c else (False, None)
         if foreign and coll and accepted:
@@ -562,20 +571,15 @@ def _sig(trace, ex, c, n, kind, accepted, foreign):
 
 # ------------------------------------------------------------------ TLC trace validation
 def _validate(ctx, traces, name):
-    """traces: list of trace dicts; returns (verdicts[list aligned], accepted flags[list], far)."""
+    """traces: list of trace JSON texts; returns (verdicts[list aligned], accepted flags[list], far)."""
     nsh = min(16, max(1, len(traces) // 40))
     shards = [traces[k::nsh] for k in range(nsh)]
 
     def one(k):
         wd = ctx.sub("%s_%d" % (name, k))
         fn = os.path.join(wd, "traces.json")
-        clean = []
-        for t in shards[k]:
-            clean.append({"convs": [{"hist": cv["hist"], "turns": [{f: v for f, v in d.items() if f != "alone_secs"}
-                                                                    for d in cv["turns"]]} for cv in t["convs"]],
-                          "ev": t["ev"]})
         with open(fn, "w") as f:
-            json.dump(clean, f)
+            f.write("[" + ",".join(shards[k]) + "]")
         cfg = ("CONSTANTS\nConfigured = %d\nNC = %d\nUniverse = {}\nSequential = FALSE\nVerify = %s\nRec = \"none\"\n"
                "SPECIFICATION TSpec\nCONSTRAINT Track\nPOSTCONDITION TraceReport\n" % (
                    _milli(CONFIGURED), NC, "TRUE" if VERIFY_PREFIX else "FALSE"))
@@ -596,7 +600,7 @@ def _validate(ctx, traces, name):
             assert rej is not None, "trace run %s/%d printed no report:\n%s" % (name, k, r.out[-2000:])
             for j, g in enumerate(idx, start=1):
                 accepted[g] = j not in rej
-                far[g] = rej.get(j, len(traces[g]["ev"]))
+                far[g] = rej.get(j, -1)
     assert all(v is not None for v in verdicts), "trace run %s: missing verdicts" % name
     return verdicts, accepted, far
 
@@ -632,12 +636,12 @@ def _run(ctx, pool):
         # ---- concurrency grid does not depend on TLC: start with the oracle for its requests
         grid = conc_grid(quick)
         cache_kw = dict(texts="{1, 2, 3}", mt=2, hf="{1, 3}", hs="{2}") if quick else \
-            dict(texts="{1, 2, 3, 5}", mt=2, hf="{1, 3}", hs="{2, 5}")
+            dict(texts="{1, 2, 3, 5}", mt=2, hf="{1, 3}", hs="{2}")
         ctx.log("TLC: emitting the cache universe (conversation tuples x sequential orders) and parameter interleavings")
 
-        def emit_cache(nc, kw):
+        def emit_cache(nc, kw, tag=""):
             return tlc.run("MC_Shared.tla", _cfg("cache", nc, "TRUE", "serve", "TRUE", ["EmitLine"], **kw),
-                           ctx.sub("emit_cache%d" % nc), spec_dirs=[SPEC_DIR], workers=8, timeout=3000)
+                           ctx.sub("emit_cache%d%s" % (nc, tag)), spec_dirs=[SPEC_DIR], workers=8, timeout=3000)
 
         def emit_steps(secs):
             return tlc.run("MC_Shared.tla", _cfg("params", 2, "FALSE", "steps", "TRUE", ["EmitLine"], temps="{200}", secs=secs),
@@ -646,10 +650,10 @@ def _run(ctx, pool):
         tp = ThreadPoolExecutor(4)
         f_cache = [tp.submit(emit_cache, 2, cache_kw)]
         if not quick:
-            f_cache.append(tp.submit(emit_cache, 3, dict(texts="{1, 3}", mt=2, hf="{1}", hs="{2}")))
-            f_cache.append(tp.submit(lambda: tlc.run(
-                "MC_Shared.tla", _cfg("cache", 2, "TRUE", "serve", "TRUE", ["EmitLine"], texts="{1, 3, 4}", mt=3, hf="{}", hs="{}"),
-                ctx.sub("emit_cache2x3"), spec_dirs=[SPEC_DIR], workers=8, timeout=3000)))
+            # three conversations (small alphabets), and pairs of three-turn conversations without history
+            f_cache.append(tp.submit(emit_cache, 3, dict(texts="{1}", mt=2, hf="{1}", hs="{2}"), "a"))
+            f_cache.append(tp.submit(emit_cache, 3, dict(texts="{1, 2}", mt=1, hf="{1}", hs="{2}"), "b"))
+            f_cache.append(tp.submit(emit_cache, 2, dict(texts="{1, 3, 4}", mt=3, hf="{}", hs="{}"), "x3"))
         f_steps = tp.submit(emit_steps, "{2, 3}")
 
         seq_execs, model_bad = [], {}
@@ -695,7 +699,7 @@ def _run(ctx, pool):
             return tag, tlc.run("MC_Shared.tla", cfgtxt, ctx.sub("design_" + tag), spec_dirs=[SPEC_DIR], workers=4,
                                 timeout=3000, expect_fail=True)
 
-        npar = 2 if quick else 3
+        npar = 2
         dj = [("CallOwn", _cfg("params", npar, "FALSE", "none", "FALSE", ["CallOwn"])),
               ("IdleConfigured", _cfg("params", npar, "FALSE", "none", "FALSE", ["IdleConfigured"])),
               ("SectionIdleConfigured", _cfg("params", npar, "FALSE", "none", "FALSE", ["SectionIdleConfigured"])),
@@ -704,6 +708,11 @@ def _run(ctx, pool):
               ("ServeOwn", _cfg("cache", 2, "TRUE", "none", "FALSE", ["ServeOwn"], **cache_kw)),
               ("cache-concurrent-full", _cfg("cache", 2, "FALSE", "none", "FALSE", [], **cache_kw)),
               ("ServeOwn-if-prefix-verified", _cfg("cache", 2, "FALSE", "none", "FALSE", ["ServeOwn"], verify=True, **cache_kw))]
+        if not quick:
+            dj += [("CallOwn-3", _cfg("params", 3, "FALSE", "none", "FALSE", ["CallOwn"], secs="{2}")),
+                   ("IdleConfigured-3", _cfg("params", 3, "FALSE", "none", "FALSE", ["IdleConfigured"], secs="{2}")),
+                   ("params-full-3", _cfg("params", 3, "FALSE", "none", "FALSE", [], secs="{2}")),
+                   ("ServeOwn-3", _cfg("cache", 3, "TRUE", "none", "FALSE", ["ServeOwn"], texts="{1, 2}", mt=1, hf="{1}", hs="{2}"))]
         f_design = [tp.submit(design_run, tag, c) for tag, c in dj]
 
         # ---- shared executions
@@ -719,69 +728,71 @@ def _run(ctx, pool):
         for s in range(0, len(execs), step):
             part = execs[s:s + step]
             jobs.append(("exec", (part, need(part))))
-        results = {}
+        tjson, summ = {}, {}
+        nres = 0
         for kind, res, err in pool.imap_unordered(_wjob, jobs):
             if err:
                 raise RuntimeError("execution worker failed:\n" + err)
-            for o in res:
-                results[o["id"]] = o["trace"]
-        ctx.log("executed %d shared-instance runs" % len(results))
-
-    # sections of the alone runs (for the sig only): attach per turn
-    for ex in execs:
-        tr = results[ex["id"]]
-        for cv, cs in zip(tr["convs"], ex["convs"]):
-            al = table[_conv_key(cs)]
-            for n, d in enumerate(cv["turns"]):
-                d["alone_secs"] = al[n]["secs"] if n < len(al) else None
+            out, new = res
+            for h, js in new.items():
+                tjson.setdefault(h, js)
+            for o in out:
+                execs[o["id"]]["h"] = o["h"]
+                summ.setdefault(o["h"], o["sum"])
+                nres += 1
+        assert nres == len(execs), "executed %d of %d" % (nres, len(execs))
+        ctx.log("executed %d shared-instance runs" % nres)
 
     # ---- TLC: conformance + judge on every distinct recorded execution
     canon = {}
     order = []
     for ex in execs:
-        key = json.dumps(results[ex["id"]], sort_keys=True)
-        if key not in canon:
-            canon[key] = len(order)
-            order.append(ex["id"])
-        ex["tix"] = canon[key]
-    distinct = [results[i] for i in order]
-    ctx.log("TLC trace validation: %d distinct shared-instance traces + %d alone traces" % (len(distinct), len(alone_traces)))
-    verdicts, accepted, far = _validate(ctx, distinct, "tv")
-    averd, aacc, _ = _validate(ctx, alone_traces, "tva")
+        if ex["h"] not in canon:
+            canon[ex["h"]] = len(order)
+            order.append(ex["h"])
+        ex["tix"] = canon[ex["h"]]
+    ctx.log("TLC trace validation: %d distinct shared-instance traces + %d alone traces" % (len(order), len(alone_traces)))
+    verdicts, accepted, far = _validate(ctx, [tjson[h] for h in order], "tv")
+    averd, aacc, _ = _validate(ctx, [json.dumps(t) for t in alone_traces], "tva")
     # pre-validation of judge and spec on data that is clean by construction
     bad_alone = [k for k, v in enumerate(averd) if v["bad"] or v["idle_bad"] or v["foreign"] or not aacc[k]]
     if bad_alone:
         raise RuntimeError("judge/spec reject %d alone runs (machinery defect), e.g. %s" % (
             len(bad_alone), json.dumps(alone_traces[bad_alone[0]])[:1500]))
 
+    first_ex = {}
+    for ex in execs:
+        first_ex.setdefault(ex["tix"], ex)
     drift = 0
     for g, ok in enumerate(accepted):
         if not ok:
             drift += 1
             if drift <= 5:
-                exs = [e for e in execs if e["tix"] == g][0]
+                exs = first_ex[g]
                 print("DRIFT C15 trace rejected by SharedInstance at event %d: %s" % (far[g], json.dumps(
-                    {k: exs[k] for k in exs if k not in ("id", "tix")})[:400]))
+                    {k: exs[k] for k in exs if k not in ("id", "tix", "h")})[:400]))
     ctx.drift += drift
 
     # ---- violations (judge only)
-    first_ex = {}
-    for ex in execs:
-        first_ex.setdefault(ex["tix"], ex)
     nviol = {}
     unjudged = foreign_only = 0
     classes = {}
     confirm = {}  # (kind, class) -> [(violation index, execution)]
     for g, v in enumerate(verdicts):
-        tr, ex = distinct[g], first_ex[g]
+        ex = first_ex[g]
         unjudged += v["unjudged"]
         foreign = set(tuple(x) for x in v["foreign"])
         badturns = set((b[0], b[1]) for b in v["bad"])
-        foreign_only += len([x for x in foreign if x not in badturns and list(x) in [list(j) for j in v["judged"]]])
+        judged = set(tuple(x) for x in v["judged"])
+        foreign_only += len([x for x in foreign if x not in badturns and x in judged])
+        if not v["bad"] and not v["idle_bad"]:
+            continue
+        tr = json.loads(tjson[order[g]])
+        sm = summ[order[g]]
         desc = {k: ex[k] for k in ("mode", "fam", "convs", "order", "off", "phase", "lat") if k in ex}
         for c, n, kind in sorted(tuple(b) for b in v["bad"]):
             d = tr["convs"][c - 1]["turns"][n - 1]
-            sig, detail = _sig(tr, ex, c, n, kind, accepted[g], (c, n) in foreign)
+            sig, detail = _sig(tr, ex, c, n, kind, accepted[g], (c, n) in foreign, sm)
             what = "conversation %d turn %d (%r): %s" % (c, n, "".join(d["u"]), {
                 "param-at-call": "LLM calls ran with temperatures %s, alone %s" % (
                     [x["seen"] for x in d["calls"]], [x["seen"] for x in d["alone"]["calls"]]),
@@ -801,7 +812,7 @@ def _run(ctx, pool):
             if sig["class"] == "other" and os.environ.get("VERIF_C15_DEBUG"):
                 print("UNCLASSIFIED %s sig=%s %s | %s" % (kind, sig, what, json.dumps(desc)))
         if v["idle_bad"]:
-            sig, _ = _sig(tr, ex, 0, 0, "param-at-rest", accepted[g], False)
+            sig, _ = _sig(tr, ex, 0, 0, "param-at-rest", accepted[g], False, sm)
             vals = [tr["ev"][k - 1]["x"] for k in v["idle_bad"]]
             ctx.violation("param-at-rest", "no request in flight but llm.temperature = %s (thousandths), configured %d | execution: %s" % (
                 vals, _milli(CONFIGURED), json.dumps(desc)[:500]),
@@ -809,6 +820,8 @@ def _run(ctx, pool):
             nviol["param-at-rest"] = nviol.get("param-at-rest", 0) + 1
             classes[("param-at-rest", sig["class"])] = classes.get(("param-at-rest", sig["class"]), 0) + 1
             confirm.setdefault(("param-at-rest", sig["class"]), []).append((len(ctx.violations) - 1, ex))
+            if sig["class"] == "other" and os.environ.get("VERIF_C15_DEBUG"):
+                print("UNCLASSIFIED param-at-rest sig=%s | %s" % (sig, json.dumps(desc)))
 
     # ---- executions ran on a reused (reset) instance: confirm violations on brand-new instances
     #      (every unclassified one, a sample of each classified group)
@@ -825,11 +838,7 @@ def _run(ctx, pool):
                 raise RuntimeError("confirmation worker failed:\n" + err)
             for o in res:
                 nfresh += 1
-                was = json.loads(json.dumps(results[o["id"]]))
-                for cv in was["convs"]:
-                    for d in cv["turns"]:
-                        d.pop("alone_secs", None)
-                if json.dumps(was, sort_keys=True) != json.dumps(o["trace"], sort_keys=True):
+                if o["js"] != tjson[execs[o["id"]]["h"]]:
                     ncarry += 1
                     for vi in todo[o["id"]][1]:
                         ctx.violations[vi]["case"]["sig"]["class"] = "needs-instance-history"
@@ -856,11 +865,10 @@ def _run(ctx, pool):
         if "steps" in p:
             model_classes.add((tuple(p["nsec"]), tuple((s[0], s[1]) for s in p["steps"])))
     real_classes = set()
-    for ex in execs:
-        if ex.get("fam") == "conc2":
-            cl = _steps_class(results[ex["id"]])
-            if cl:
-                real_classes.add(cl)
+    for h in order:
+        cl = summ[h]["cls"]
+        if cl:
+            real_classes.add((tuple(cl[0]), tuple(tuple(x) for x in cl[1])))
     outside = [c for c in real_classes if c not in model_classes]
     if outside:
         ctx.drift += len(outside)
@@ -883,13 +891,22 @@ def _run(ctx, pool):
         {"%s/%s" % k: n for k, n in sorted(classes.items())}, unjudged, ctx.drift))
 
     nontrivial = 0
-    for g, tr in enumerate(distinct):
-        ov, _ = _overlap_info(tr)
-        if ov or any(d["hp"] > 0 for cv in tr["convs"] for d in cv["turns"]):
+    clean = {"concurrent_without_overlap": [0, 0], "sequential_without_foreign_serve": [0, 0],
+             "single_conversation": [len(alone_traces), 0]}
+    for g, h in enumerate(order):
+        sm, v = summ[h], verdicts[g]
+        if sm["ov"] or sm["hit"]:
             nontrivial += 1
+        viol = 1 if (v["bad"] or v["idle_bad"]) else 0
+        if first_ex[g]["mode"] == "conc" and not sm["ov"] and not v["foreign"]:
+            clean["concurrent_without_overlap"][0] += 1
+            clean["concurrent_without_overlap"][1] += viol
+        if first_ex[g]["mode"] == "seq" and not v["foreign"]:
+            clean["sequential_without_foreign_serve"][0] += 1
+            clean["sequential_without_foreign_serve"][1] += viol
     samples = []
     for ex in (execs[0], execs[len(grid) // 2], execs[nseq0], execs[-1]):
-        tr = results[ex["id"]]
+        tr = json.loads(tjson[ex["h"]])
         samples.append({"execution": {k: ex[k] for k in ("mode", "convs", "order", "off", "phase", "lat") if k in ex},
                         "replies": [["".join(d["r"]) for d in cv["turns"]] for cv in tr["convs"] if cv["turns"]],
                         "events": [[e["k"], e["c"], e["x"], e["y"]] for e in tr["ev"]][:40],
@@ -901,7 +918,7 @@ def _run(ctx, pool):
         "level": LEVEL,
         "coverage": {
             "states": states, "transitions": trans,
-            "traces_validated_against_impl": len(distinct) + len(alone_traces),
+            "traces_validated_against_impl": len(order) + len(alone_traces),
             "evaluations": len(execs) + 2 * len(table),
             "distinct_nontrivial": nontrivial,
             "rule": "an evaluation is one execution of a conversation tuple on ONE real LLMRails (sequential: every order of "
@@ -913,7 +930,7 @@ def _run(ctx, pool):
             "exhaustive": True,
             "design_verdict": design,
             "executions_by_family": fams,
-            "distinct_traces": len(distinct),
+            "distinct_traces": len(order),
             "accepted_by_SharedInstance": sum(accepted), "rejected_by_SharedInstance": drift,
             "violations_by_kind_and_class": {"%s/%s" % k: n for k, n in sorted(classes.items())},
             "unjudged_ambiguous_turns": unjudged, "foreign_serves_without_observable_difference": foreign_only,
@@ -921,6 +938,7 @@ def _run(ctx, pool):
             "interleaving_classes_two_requests": {"model": len(model_classes), "realised": len(real_classes & model_classes),
                                                   "outside_model": len(outside)},
             "confirmed_on_fresh_instance": nfresh, "oracle_conversations": len(table),
+            "clean_controls_traces_and_violations": clean,
             "wall_s_run": round(time.time() - t_start, 1),
         },
         "assumptions": [
